@@ -9,7 +9,7 @@ LEAN_MODULES = ["CatiiProps.C10"]
 USES_TRANSLATOR = True
 RULE = ("exhaustive: arity<=2, <=2 entries, 4 width classes for the largest coordinate x 4 for the common value, row-id "
         "lists from {[], [0], [0, 2^32-1]}; random: arity 1..4, 0..30 entries, magnitudes crossed over the four word "
-        "sizes, row-id lists of length 0..40 with values up to 2^32-1. Non-trivial = at least one entry; distinct by input")
+        "sizes, row-id lists of length 0..40 with values up to 2^32-1, the row-id arrays contiguous or non-contiguous views (step-2 slice, matrix column, reversed view); entries of 2^16-1 .. 2^17+5 row ids mixed with short ones in every order. Non-trivial = at least one entry; distinct by input")
 ASSUMPTIONS = ["NumPy tofile/ndarray(buffer=) read and write little-endian fixed-width words on this platform"]
 
 
@@ -20,7 +20,8 @@ def check_case(ctx, ld, case, reqs, pend):
     ctx.hit("widths:coord%d/common%d" % (case.get("coord_class", -1), case.get("common_class", -1)))
     if any(len(r) == 0 for _, r in entries):
         ctx.hit("has_empty_rowids")
-    sv = X.impl_save(entries, common)
+    sv = X.impl_save(entries, common, case.get("layout"))
+    ctx.hit("rowid_layout:%s" % (case.get("layout") or "contiguous"))
     if sv[0] != "ok":
         ctx.oracle_fail("save raised %s" % sv[1], X.small_desc(case), cls="C10-save-raises")
         return
@@ -59,6 +60,24 @@ def check_case(ctx, ld, case, reqs, pend):
     pend.append((case, sv[1], got, gcommon))
 
 
+def long_case(ctx, ld, case):
+    """entries of about 2^16 / 2^17 row ids mixed with short ones, saved and loaded back (oracle only)"""
+    entries = X.expand_long(case)
+    ctx.case(case, nontrivial=True)
+    ctx.hit("long_entries:" + "".join("l" if d[1] >= 65535 else "s" for d in case["long"]))
+    sv = X.impl_save(entries, case["common"], case.get("layout"))
+    if sv[0] != "ok":
+        ctx.oracle_fail("save raised %s" % sv[1], case, cls="C10-save-raises")
+        return
+    lo = ld.load(sv[1])
+    if lo[0] != "ok":
+        ctx.oracle_fail("load of a just-saved file raised %s" % lo[1], case, cls="C10-load-raises")
+    elif lo[1] != X.canon(entries) or lo[2] != case["common"]:
+        bad = [k for (k, r), (k2, r2) in zip(X.canon(entries), lo[1]) if k != k2 or r != r2][:2]
+        ctx.oracle_fail("load(save(e, c)) != (e, c) for entries of %s row ids (first differing keys %s)" % (
+            [d[1] for d in case["long"]], bad), case, cls="C10-roundtrip")
+
+
 def run(ctx):
     core.load_catii()
     ld = X.Loader()
@@ -67,6 +86,13 @@ def run(ctx):
         for case in X.exhaustive_cases():
             check_case(ctx, ld, case, reqs, pend)
         ctx.exhaustive.append("arity<=2 x <=2 entries x 4x4 width classes x row-id lists from {[],[0],[0,2^32-1]}")
+        # row-id arrays that are non-contiguous views (a slice with a step, a matrix column, a reversed view)
+        for lay in ("stride2", "column", "backwards"):
+            for arity in (1, 2):
+                check_case(ctx, ld, {"entries": [[[1] + [0] * (arity - 1), [0, 2, 5]], [[2] + [1] * (arity - 1), [1, 4, X.U32]]],
+                                     "common": 0, "arity": arity, "layout": lay}, reqs, pend)
+        for fixed in (["s", "l"], ["l", "s"], ["s", "l", "s", "l"], None):
+            long_case(ctx, ld, X.long_desc(ctx.rng, fixed))
         for _ in range(ctx.n(250)):
             check_case(ctx, ld, X.gen_case(ctx.rng), reqs, pend)
         if ctx.oracle_only:
@@ -85,9 +111,11 @@ def run(ctx):
 def replay(ctx, rep):
     core.load_catii()
     c = rep["case"]
+    if "long" in c:
+        c = dict(c, entries=X.expand_long(c))
     ld = X.Loader()
     try:
-        sv = X.impl_save(c["entries"], c["common"])
+        sv = X.impl_save(c["entries"], c["common"], c.get("layout"))
         if sv[0] != "ok":
             return False
         lo = ld.load(sv[1])
